@@ -475,6 +475,23 @@ func c01Main(r *engine.Run) {
 	}) {
 		r.Bound(fmt.Sprintf("UnionMany: every triple (and pair) over a %d-operand alphabet", s))
 	}
+	if r.Thorough() {
+		// 4×4 lattice: a fixed stride of all pairs of the ≤4-vertex polygons, segments and paths
+		l4 := Lattice4(universe.Identity)
+		n4 := len(l4)
+		const stride4 = 7
+		if r.Parallel(n4*n4/stride4, func(k int) {
+			kk := k * stride4
+			i, j := kk/n4, kk%n4
+			if i > j {
+				i, j = j, i
+			}
+			_ = kk
+			c01Pair(r, l4[i], l4[j])
+		}) {
+			r.Bound(fmt.Sprintf("4×4 lattice alphabet (%d operands): every %d-th ordered pair", n4, stride4))
+		}
+	}
 	c01Affine(r, level)
 }
 
